@@ -683,8 +683,7 @@ class Simplex:
         """Check if all items in d are integer"""
         for var, value in self.mapping.items():
             if var in self.input_vars:
-                v = float(value)
-                if not v.is_integer():
+                if Fraction(value).denominator != 1:
                     return False
         return True
 
@@ -693,8 +692,8 @@ class Simplex:
         assert not self.all_integer(), "No integer!"
         for v, value in self.mapping.items():
             if v in self.input_vars:
-                val = float(value)
-                if not val.is_integer():
+                val = Fraction(value)
+                if val.denominator != 1:
                     return v, val
         return None
 
